@@ -1064,7 +1064,7 @@ LEGS = [
     Leg("gb", run=run_gb, gen=lambda tier: st.fixed_dictionaries({
         "gb": gb_strategy(), "role": st.sampled_from(["initiator", "target"])}),
         quick=2000, thorough=60000, shards_quick=3, shards_thorough=16,
-        nt_floor=0.3,
+        nt_floor=0.2,
         rule="general bytes (magic variants, TLV lists with wrong lengths, "
              "truncation, duplicates, unknown types) into llc.activate() in "
              "both roles; non-trivial = correct magic and at least one TLV."),
